@@ -127,6 +127,11 @@ extern int g_bound_ec; extern size_t g_bound_n;
 static inline fn_t bind_owned_tok(fn_t tok, int ec, size_t n) { g_bound_ec = ec; g_bound_n = n; return tok; }
 static inline void post_tok(fn_t tok) { post_closure(tok, g_bound_ec, g_bound_n, tok >= 0x7000 ? CK_raw_self : CK_owned); }
 
+/* std::bind(std::ref(slot), ec[, n]): the closure holds a REFERENCE to the handler slot (kind CK_ref_member); it is only
+ * safe while the slot still holds the handler when the closure runs */
+extern size_t g_ref_posts;
+static inline fn_t bind_ref_tok(fn_t *slot, int ec, size_t n) { g_bound_ec = ec; g_bound_n = n; g_ref_posts++; return *slot; }
+
 /* aux::function semantics: move-construction empties the source; operator() consumes;
  * assigning to / clearing / destroying a non-empty function destroys the handler uninvoked */
 static inline fn_t fn_move(fn_t *slot) { fn_t t = *slot; *slot = 0; return t; }
